@@ -1206,7 +1206,14 @@ impl<'t> Gen<'t> {
                 }
                 if self.t.chance(1, 2) {
                     let arg = match self.t.weighted(&[3, 2, 1, 1, 1]) {
-                        0 => Arg::Str(vec![Piece::Text(sanitize_arg_text(&self.text(tag)))]),
+                        0 => {
+                            let mut txt = sanitize_arg_text(&self.text(tag));
+                            // one plain string argument in six holds a lone brace (`"smile :-}"`): text, not syntax
+                            if self.t.chance(1, 6) {
+                                txt.push_str(*self.t.choose(&[" :-}", " {", "} ", " a } b { c"]));
+                            }
+                            Arg::Str(vec![Piece::Text(txt)])
+                        }
                         1 => {
                             // interpolated string argument
                             let mut p = vec![Piece::Text(sanitize_arg_text(&self.text(tag)))];
